@@ -17,7 +17,8 @@ Image(r) == IsConstitutionIso(r.f, r.g, r.h) /\ ParityPreserved(r.g, r.h, r.f) /
 \* respellings go through a writer and the reader: when the text read back is not the same structure, the premise of C01
 \* ("another valid spelling of it") fails - that is a write/read failure, judged (and reported) by C02/C03, counted here
 Respelling(r) == r.act \in {"respell-random", "respell-canonical-mapped", "respell-aromatic-bonds", "respell-kekule",
-                            "respell-rdkit-random", "respell-rdkit-canonical", "respell-rdkit-kekule"}
+                            "respell-rdkit-random", "respell-rdkit-canonical", "respell-rdkit-kekule",
+                            "canonicalized-copy"}     \* canonicalize() rewrites non-canonical functional groups: then it is no image (counted)
 SameVerdict(r) ==
   IF ~Image(r) THEN (IF Respelling(r) THEN {} ELSE {"harness-variant-is-not-an-image:" \o r.act})   \* the driver claimed a preservation that is not one
   ELSE IF ~InDomainC01(r.g) THEN If((r.sg = r.sh) # (r.eq = 1), "eq-iff-same-string")
